@@ -6,6 +6,7 @@
    SCPI_SystemErrorNextQ (its pop), SCPI_SystemErrorCountQ.  The parameter is the int32 already decoded. *)
 From Coq Require Import Bool List NArith ZArith.
 From M Require Import RegModel.
+From M Require FmtModel.
 Import ListNotations.
 Local Open Scope N_scope.
 
@@ -38,4 +39,11 @@ Definition cmd_resp (s:st) (c:cmd) : option N :=
 (* SCPI_RegSetBits / SCPI_RegClearBits on any register *)
 Definition reg_bits (s:st) (r:reg) (setb:bool) (b:N) : st * list ev :=
   wr s r (if setb then N.lor (rg s r) b else N.ldiff (rg s r) b).
+(* the response message of a numeric query: SCPI_ResultInt32 formats the register with the signed decimal formatter into its
+   33-byte stack buffer (FmtModel.int2str, the subject of int2str_exact), the message ends in CR LF *)
+Definition cmd_text (s:st) (c:cmd) : option (list Z) :=
+  match cmd_resp s c with
+  | Some n => Some (fst (fst (FmtModel.int2str 32 (Z.of_N n) 33 10 true)) ++ [13; 10]%Z)
+  | None => None
+  end.
 Definition run_cmd (s:st) (c:cmd) : st * option N := (fst (cmd_do s c), cmd_resp s c).
